@@ -102,4 +102,38 @@ def c10(tier, seed):
                 "routes": list(props.ROUTE_IDS)})
 
 
-PROPS = {"C13": c13, "C10": c10, "C11": c11, "C12": c12, "C04": c04, "C05": c05, "C03": c03, "C09": c09}
+def c07(tier, seed):
+    from harness import props
+    text, names = props.gen_dup(tier)
+    return checks.run_mirsym_property(
+        "C07", tier, seed, {"h_dup.rs": text}, codes("M_DUP_VERDICT", "M_NOT_ALL_HELD", "M_HELD_AFTER_ERR", "M_BLOCKING_IN_TRY"),
+        assumptions=sys_assumptions + ["HashSet<*const ()>::{with_capacity, insert} of the retrying collection's duplicate check are summarised with set semantics (std's hashing is trusted)",
+                                       "the compile-time clause (new/new_ref accept only owned inputs) is a type-system fact and not part of this check"],
+        bounds={"member_list_length": "1..4 (quick) / 1..6 (thorough)", "universe": "3 mutexes + 3 rwlocks, member indices symbolic and NOT constrained to be distinct",
+                "nesting": "boxed/ref/retrying inside boxed/ref/retrying with an extra member; owned collections and poisonable wrappers referenced twice",
+                "containers": "tuples (quick); arrays and Vec additionally (thorough)"},
+        per_entry_expect=lambda e: ("9003", "9001"))
+
+
+def c08(tier, seed):
+    from harness import props
+    text, names = props.gen_order(tier)
+    return checks.run_mirsym_property(
+        "C08", tier, seed, {"h_order.rs": text}, codes("M_ORDER", "M_NOT_ALL_HELD", "M_HELD_AFTER_ERR"),
+        assumptions=sys_assumptions + ["the sequence of blocking raw acquisitions is recorded by the auditing raw locks (world log)"],
+        bounds={"pairs": "two sorting collections (boxed/ref, optionally with a nested boxed/ref/retrying member or an owned group) built from two independent symbolic arrangements over the same 6-lock universe",
+                "sizes": "2..3 members (quick) / 2..4 (thorough)", "modes": "lock and read"})
+
+
+def c06(tier, seed):
+    from harness import props
+    text, names = props.gen_key(tier)
+    return checks.run_mirsym_property(
+        "C06", tier, seed, {"h_key.rs": text}, codes("M_KEY_MODEL", "M_NO_PANIC", "M_TRY_VERDICT", "M_CLOSURE_COUNT", "M_BAD_RELEASE"),
+        outcome_kinds=("abort", "unwound", "memory-error"),
+        assumptions=sys_assumptions + ["reference model: one boolean per thread (key alive); a second modelled thread has its own thread-local storage (natively a real std::thread)"],
+        bounds={"history_length": "3 (quick) / 4 (thorough) operations, each followed by a ThreadKey::get() probe whose result is kept or dropped by a symbolic bit",
+                "vocabulary": "get, drop, forget, lock+drop, read+unlock, lock+forget(guard), failed try_lock, try_write, scoped lent/owned, scoped lent/owned with panic, guard with panic, poisonable lock (Ok/Err) and with panic, poisonable try_lock+unlock, collection lock+unlock, collection try_lock+forget, second thread, collection scoped owned"})
+
+
+PROPS = {"C13": c13, "C06": c06, "C08": c08, "C07": c07, "C10": c10, "C11": c11, "C12": c12, "C04": c04, "C05": c05, "C03": c03, "C09": c09}
